@@ -55,6 +55,7 @@ func init() {
 			{ID: "R-C05-2", Doc: "all links of a step compared on materials and products", Min: 6, Run: ruleC05_2},
 			{ID: "R-C05-3", Doc: "summary link endpoints", Min: 3, Run: ruleC05_3},
 			a1Rule(6, "in_toto.ReduceStepsMetadata", "in_toto.GetSummaryLink"),
+			a3Rule("R-C05-4", 2, nil, "in_toto.VerifyLinkSignatureThesholds", "in_toto.ReduceStepsMetadata"),
 		}})
 }
 
@@ -744,6 +745,15 @@ func ruleC08_2(c *Ctx) {
 		}
 	}
 	c.check(len(ups) == 1, R, fn, "exactly one key is trusted for the sublayout", mk.Pos(), "one MapUpdate", fmt.Sprintf("%d entries are stored into the sublayout key map", len(ups)))
+	// fresh per sublayout: the map is made inside the loop over the step's links, so keys of functionaries whose
+	// sublayouts were resolved earlier do not accumulate
+	inLoop := false
+	for _, ml := range mapLoops(s.f) {
+		if ml.next == s.inNext && ml.body[mk.Block()] && mk.Block() != ml.header {
+			inLoop = true
+		}
+	}
+	c.check(inLoop, R, fn, "the key map is fresh for every sublayout", mk.Pos(), "made inside the per-link loop", "the key map passed to sublayout verification is created outside the per-link loop: keys of earlier sublayouts accumulate, and every later sublayout must also carry signatures of the earlier functionaries")
 	for _, mu := range ups {
 		keyOK := resolve(mu.Key, mu) == s.inKey
 		valOK := false
